@@ -325,11 +325,27 @@ impl PScenario {
         if n > 256 && rng.chance(0.6) {
             n = rng.range(3, 64);
         }
+        // rarely: a long input (up to 10^6 in thorough), where chunk sizes pass 2^16
+        let long = rng.below(4000) == 0;
+        if long {
+            n = match tier {
+                Tier::Quick => rng.range(140_000, 400_000),
+                Tier::Thorough => rng.range(140_000, 1_000_000),
+            };
+            st.bump("probe.long_input_ge_140k");
+        }
         let (d, m) = gen::scalar_c01(&mut rng, n);
         let mut cfg = gen_cfg(&mut rng, n, RProp::C02);
         // the faithful splitter most of the time; the over-approximating policies are sound too
         if rng.chance(0.5) {
             cfg.policy = Policy::Length;
+        }
+        if long {
+            cfg.policy = if rng.chance(0.7) { Policy::Length } else { Policy::Balanced };
+            cfg.threads = rng.pick(&[1usize, 2, 3, 4, 8]);
+            cfg.min_len = if rng.chance(0.5) { 1 } else { rng.range(1000, 70_000) };
+            cfg.max_pieces = 1;
+            cfg.pct = None;
         }
         cfg.paths = crate::exec::PathMix::AddOnly;
         cfg.tail_rate = 0.;
@@ -438,6 +454,7 @@ impl Scenario for PScenario {
                     data_readable: vec![],
                 }),
             },
+            |t: &PTrace| (t.data.len() + t.tree.nodes.len()) * 8,
             |t| {
                 let mut st = Stats::default();
                 self.execute(t, &mut st)
@@ -603,6 +620,8 @@ pub fn real_pool_crosscheck(seed: u64, tier: Tier) -> (Value, Vec<(Viol, Value)>
                 Tier::Thorough => rng.range(5000, 1_000_000),
             },
         };
+        // a few long inputs in every tier: merged chunks beyond 2^16 elements
+        let n = if i % 40 == 7 { rng.range(150_000, match tier { Tier::Quick => 400_000, Tier::Thorough => 1_000_000 }) } else { n };
         let (data, meta) = gen::scalar_c01(&mut rng, n);
         let (minl, maxl) = match rng.below(4) {
             0 => (1usize, usize::MAX),
@@ -614,7 +633,50 @@ pub fn real_pool_crosscheck(seed: u64, tier: Tier) -> (Value, Vec<(Viol, Value)>
         let rec = Rec { splits: Arc::new(Mutex::new(vec![])) };
         macro_rules! real {
             ($T:ty) => {{
-                let got: $T = pools[pi].install(|| RecPar { data: &data, rec: rec.clone() }.with_min_len(minl).with_max_len(maxl).collect());
+                let got: $T = match std::panic::catch_unwind(std::panic::AssertUnwindSafe(|| {
+                    pools[pi].install(|| RecPar { data: &data, rec: rec.clone() }.with_min_len(minl).with_max_len(maxl).collect::<$T>())
+                })) {
+                    Ok(g) => g,
+                    Err(p) => {
+                        // crate code panicked on a real pool: reproduce it in the simulator under the
+                        // faithful splitter so that the report is an exactly replayable trace
+                        let msg = crate::framework::panic_message(&p);
+                        let mut found = false;
+                        for k in 0..16u64 {
+                            let mut r2 = Rng::new(crate::rng::mix(seed ^ 0xfa11, k));
+                            let mut cfg = gen_cfg(&mut r2, n, RProp::C02);
+                            cfg.policy = Policy::Length;
+                            cfg.threads = threads;
+                            cfg.min_len = minl;
+                            cfg.max_len = maxl;
+                            cfg.paths = crate::exec::PathMix::AddOnly;
+                            cfg.max_pieces = 1;
+                            cfg.tail_rate = 0.;
+                            let (tree, _) = generate(&mut r2, &cfg);
+                            let tr = PTrace {
+                                scenario: "R/C19".into(),
+                                data: data.iter().map(|x| x.to_bits()).collect(),
+                                tree,
+                                adaptor: Adaptor::None,
+                                meta: format!("simulated after a panic on a real rayon pool ({}): threads={} min_len={} max_len={}", msg, threads, minl, maxl),
+                                data_readable: vec![],
+                            };
+                            let mut st2 = Stats::default();
+                            if let Some(v) = PScenario.execute(&tr, &mut st2) {
+                                viols.push((v, serde_json::to_value(&tr).unwrap()));
+                                found = true;
+                                break;
+                            }
+                        }
+                        if !found {
+                            viols.push((
+                                Viol::new("harness", format!("collect #{}: {} panicked on a real pool ({}) but not in 16 simulated schedules", i, <$T>::NAME, msg)),
+                                Value::Null,
+                            ));
+                        }
+                        continue;
+                    }
+                };
                 let map: BTreeMap<(usize, usize), usize> =
                     rec.splits.lock().unwrap().iter().map(|&(lo, mid, hi)| ((lo, hi), mid)).collect();
                 let tree = tree_from_splits(n, &map);
